@@ -213,7 +213,12 @@ def _enumerate_quick(shard):
             yield {"designs": [vd], "ops": [["c", 0, vt, B], ["a", 0, vt], ["c", 0, vt, B]]}
     elif space == "hashseed":
         for k, (n, v, t) in _enumerate(_quick_victims()):
-            if k % 2 == 0 and (k // 2) % parts == part:
+            if "alias_unnamed" in D.tags(n):
+                # names derived from Python names (known to be order sensitive): all seeds, also in quick
+                if part == 0:
+                    seeds = SEEDS_QUICK + [4] if n == "alias_unnamed_closure" else SEEDS_QUICK[:3]
+                    yield {"designs": [_dspec(n, v)], "ops": [["c", 0, t]], "hashseeds": seeds}
+            elif k % 2 == 0 and (k // 2) % parts == part:
                 # every second design, one extra fresh interpreter each; the seed values rotate over the designs
                 yield {"designs": [_dspec(n, v)], "ops": [["c", 0, t]], "hashseeds": [0, SEEDS_QUICK[1 + (k // 2) % 3]]}
     else:
@@ -694,6 +699,17 @@ def _detail(case, k, gold, res, v, after, confirmed):
     return "\n".join(lines)
 
 
+def _alias_cause(src, base, other):
+    """"aliased-unnamed-object" iff the two outputs differ only in identifiers and every identifier that occurs in
+    only one of them is a Python name bound by a plain assignment `name = ...` in the design source (an unnamed
+    Signal/Variable takes its VHDL name from one of the Python names it is reachable under)."""
+    if _diff_class(base["vhdl"], other["vhdl"]) != "identifiers_only":
+        return ""
+    ta, tb = set(_IDENT.findall(base["vhdl"])), set(_IDENT.findall(other["vhdl"]))
+    bound = set(re.findall(r"^\s+(\w+) = ", src, re.M))
+    return "aliased-unnamed-object" if (ta ^ tb) and (ta ^ tb) <= bound else ""
+
+
 def _check_hashseed(case, sources, out):
     o = case["ops"][0]
     src, top = sources[o[1]], o[2]
@@ -712,7 +728,8 @@ def _check_hashseed(case, sources, out):
         if not r["ok"]:
             all_ok = False
         if v is not None:
-            out.add({"effect": v[0], "class": v[1], "after": "hashseed", "with": ""},
+            cause = _alias_cause(src, base, r) if r["ok"] else ""
+            out.add({"effect": v[0], "class": v[1], "after": "hashseed", "with": cause},
                     f"{case['designs'][0]} top {top}: PYTHONHASHSEED={s} vs {seeds[0]}: {v}\n"
                     + (_first_diff(base["vhdl"], r["vhdl"]) if r["ok"] else f"{r.get('exc')}: {r.get('msg', '')[:300]}"))
     out.nontrivial = all_ok and len(seeds) >= 2
